@@ -72,19 +72,20 @@ Definition entry (n : nat) (m : list R) (i j : nat) : R := nth (i * n + j) m 0.
 Definition matvec (n : nat) (m : list R) (v : list R) : list R :=
   map (fun i => fold_right Rplus 0 (map (fun j => entry n m i j * nth j v 0) (seq 0 n))) (seq 0 n).
 
-(* a fourth-order tensor m2 of hypothesis h IS the 3D tensor m3 seen in the frame of h *)
-Definition restricts (h : hyp) (c : conv) (m2 m3 : list R) : Prop :=
-  forall i j, (i < doc_ssize h)%nat -> (j < doc_ssize h)%nat ->
-    entry (doc_ssize h) m2 i j = entry 6 m3 (pcomp h c i) (pcomp h c j).
+(* a fourth-order tensor m2 with n x n components IS the 3D tensor m3 seen through the component map p *)
+Definition restricts_gen (n : nat) (p : nat -> nat) (m2 m3 : list R) : Prop :=
+  forall i j, (i < n)%nat -> (j < n)%nat -> entry n m2 i j = entry 6 m3 (p i) (p j).
+Definition restricts (h : hyp) (c : conv) (m2 m3 : list R) : Prop := restricts_gen (doc_ssize h) (pcomp h c) m2 m3.
 
-(* embedding of a reduced symmetric tensor into 3D: component pcomp i receives s_i, the rest is zero *)
-Definition embed (h : hyp) (c : conv) (s : list R) : list R :=
-  map (fun k => fold_right Rplus 0
-                  (map (fun i => if Nat.eqb (pcomp h c i) k then nth i s 0 else 0) (seq 0 (doc_ssize h)))) (seq 0 6).
-(* "identical in-plane responses": applying the reduced tensor to s gives the in-plane components of the 3D tensor applied to embed s *)
-Definition same_response (h : hyp) (c : conv) (m2 m3 : list R) : Prop :=
-  forall s, List.length s = doc_ssize h -> forall i, (i < doc_ssize h)%nat ->
-    nth i (matvec (doc_ssize h) m2 s) 0 = nth (pcomp h c i) (matvec 6 m3 (embed h c s)) 0.
+(* embedding of a reduced symmetric tensor into 3D: component p i receives s_i, the rest is zero *)
+Definition embed_gen (n : nat) (p : nat -> nat) (s : list R) : list R :=
+  map (fun k => fold_right Rplus 0 (map (fun i => if Nat.eqb (p i) k then nth i s 0 else 0) (seq 0 n))) (seq 0 6).
+(* "identical in-plane responses": applying the reduced tensor to s gives the in-plane components of the 3D tensor applied
+   to the embedding of s *)
+Definition same_response_gen (n : nat) (p : nat -> nat) (m2 m3 : list R) : Prop :=
+  forall s, List.length s = n -> forall i, (i < n)%nat ->
+    nth i (matvec n m2 s) 0 = nth (p i) (matvec 6 m3 (embed_gen n p s)) 0.
+Definition same_response (h : hyp) (c : conv) (m2 m3 : list R) : Prop := same_response_gen (doc_ssize h) (pcomp h c) m2 m3.
 
 (* ---- Hill: documented quadratic form (Hill.hxx), with TFEL's components s3 = sqrt2 s12, s4 = sqrt2 s13, s5 = sqrt2 s23 *)
 Definition hill_form (F G H L M N : R) (s : list R) : R :=
@@ -113,10 +114,3 @@ Definition relabel (h : hyp) (c : conv) (o : ortho) : ortho :=
   mk_ortho (Eof o (p 0%nat)) (Eof o (p 1%nat)) (Eof o (p 2%nat))
            (nuof o (p 0%nat) (p 1%nat)) (nuof o (p 1%nat) (p 2%nat)) (nuof o (p 0%nat) (p 2%nat))
            (Gof o (p 0%nat) (p 1%nat)) (Gof o (p 1%nat) (p 2%nat)) (Gof o (p 0%nat) (p 2%nat)).
-(* plane-stress condensation of a 2D stiffness (components 11,22,33,12) on the out-of-plane component 33 *)
-Definition condensed (d da : list R) : Prop :=
-  entry 4 d 2 2 <> 0 ->
-  (forall i j, (i < 2)%nat -> (j < 2)%nat ->
-     entry 4 da i j * entry 4 d 2 2 = entry 4 d i j * entry 4 d 2 2 - entry 4 d i 2 * entry 4 d 2 j) /\
-  entry 4 da 3 3 = entry 4 d 3 3 /\
-  (forall i j, (i < 4)%nat -> (j < 4)%nat -> (i = 2 \/ j = 2 \/ (i = 3 /\ j <> 3) \/ (j = 3 /\ i <> 3))%nat -> entry 4 da i j = 0).
